@@ -275,6 +275,7 @@ class BatchCase(Case):
                  tfc.sym([Bn, cfg['kw']['input_dim']], 'x'))
     elif t == 'pwl_fn':
       import props.C15 as C15
+      c.assume(P.var('omin') <= P.var('omax'), 'keypoint_output_min <= keypoint_output_max (validated by the function)')
       cl += rows('pwl_calibration_fn', lambda x: C15.call_pwl_fn(cfg['kw'], x, per_example=False),
                  tfc.sym([Bn, 1], 'x'))
     elif t == 'parallel':
